@@ -154,7 +154,7 @@ func TestVerifPP(t *testing.T) {
 			t.Fatalf("provision: %v %s", err, raw)
 		}
 		stream := append(append([]byte{}, inHdr...), payload...)
-		sc := &sconn{chunks: split(r, stream), eof: true, remote: client, local: server}
+		sc := &sconn{chunks: split(r, stream), eof: true, eofWithLast: len(stream)%3 == 1, remote: client, local: server}
 		h := routes.Compile(zap.NewNop(), time.Hour, layer4.HandlerFunc(func(*layer4.Connection) error { return nil }))
 		cx := layer4.WrapConnection(sc, make([]byte, 0, 2048), zap.NewNop())
 		fmt.Fprintf(out.cases, "pp %d tcp %s %d %s %d\n", ver, ipTok(effSrc), effSrc.Port, ipTok(effDst), effDst.Port)
